@@ -390,6 +390,25 @@ def run_case(case):
                 cov['scale_invariance'] = 1
                 if not (e <= TOL):
                     bad.append(('scale-invariance', 'multiplying (a,b,c) of side %s by %g changes the solved system: residual of the unscaled solution %.3g' % (side, lam, e)))
+            # (6) two unknowns of one model on the same grid (temperature and concentration): each has boundary DATA of its own,
+            # they are solved in turn, step after step. Each one's reported boundary values satisfy its own conditions and are
+            # consistent with the system that was solved for it.
+            if not bad:
+                spec3 = {'periodic': spec['periodic'], 'sides': {s: {k_: (np.array(x_, copy=True) if k_ in ('a', 'b', 'c') else x_) for k_, x_ in v.items() if k_ != 'util'} for s, v in spec['sides'].items()}}
+                for sd_, v_ in spec3['sides'].items():
+                    v_['c'] = v_['c'] * 0.5 + 1.3 * np.where(np.asarray(v_['b']) != 0, np.asarray(v_['b']), 1.0)
+                q1 = make_var(m, g, spec, vals, 'both', rng, 'bc-passed')
+                q2 = make_var(m, g, spec3, vals * 0.5 + 0.25, 'both', rng, 'bc-passed')
+                for rnd_ in range(2):
+                    for nm_, q_ in (('first', q1), ('second', q2)):
+                        spy_t = SpySolver()
+                        solve_with(pf, spy_t, q_, [pf.transientTerm(q_, dt, 1.0), -pf.diffusionTerm(D)], default_path=bool((case['seed'][-1] + rnd_) % 2))
+                        if not np.all(np.isfinite(q_._value)):
+                            continue
+                        lab = 'two variables solved in turn, round %d, %s variable' % (rnd_ + 1, nm_)
+                        ghosts(q_, 'solvePDE-two-variables-in-turn')
+                        rows_check(g, q_, bad, maxerr, cov, lab)
+                        interior_consistency(g, q_, spy_t, bad, maxerr, cov, lab)
         else:
             cov['solve_nonfinite'] = 1
     kv = gen.bc_kind_vector(g, spec)
